@@ -12,6 +12,7 @@ type Ctx struct {
 	sites         map[*FuncUnit][]callSite
 	pedigreeDepth int
 	sigDepth      int
+	swMemo        map[*FuncUnit]*searchWrap
 	L             *Loaded
 	m             *Model
 	e             *Engine
